@@ -428,6 +428,11 @@ func lexNumber(l *lexer) stateFn {
 		l.next()
 		return l.errorf("invalid number syntax: %q", l.input[l.start:l.pos])
 	}
+	// Nor a point or a sign: "1.2.3" and "1-2" are not two numbers
+	if r := l.peek(); r == '.' || r == '+' || r == '-' {
+		l.next()
+		return l.errorf("invalid number syntax: %q", l.input[l.start:l.pos])
+	}
 
 	l.emit(tokenTypeNumber)
 	return lexMessageText
